@@ -302,6 +302,22 @@ ADD5 = {
 for _id, _t in ADD5.items():
     P[_id]["text"] += " " + _t
 
+ADD6 = {
+ "C01": "The decoder's recorded error stays set once set (shared with C09/C17; rule decoder-error-sticky).",
+ "C02": "A function of the receive loop's reach that holds a mutex to its end calls nothing that locks the same mutex again (rule no-relock-of-held-mutex).",
+ "C03": "No function of the service packages holds a mutex shared through a pointer field while it reads a handed-in reader to its end (rule shared-lock-not-across-client-io).",
+ "C04": "Per-peer tables of the shared service object are keyed by the remote address or its String(), never by the local address or a part of the remote one (shared with C03; rule per-peer-key-complete).",
+ "C05": "A time.Time stored in an event does not come from time.Unix/Date/Parse with non-constant arguments (MarshalJSON rejects years outside 0..9999; clause of event-value-serialisable).",
+ "C09": "A loop over a library-owned queue is left only when the queue is closed, or after the queue was handed to a drainer (clause of library-queue-drained).",
+ "C12": "USER records its argument as the pending user on every path to its return (rule ftp-user-recorded).",
+ "C13": "The parser appends every extension type it reads, under no condition other than the length checks of its loop (rule extension-list-complete).",
+ "C14": "The ARP cache is asked for the peer's address or a gateway, never for the connection's local address (rule next-hop-of-peer).",
+ "C19": "A service entry is put into the service table only after its Service was set (rule service-entry-complete).",
+ "C20": "StateTable.Add refuses a state only for want of a free slot, not on a condition about an existing entry (rule state-add-refuses-only-when-full).",
+}
+for _id, _t in ADD6.items():
+    P[_id]["text"] += " " + _t
+
 PENDING = {
 }
 
